@@ -240,7 +240,7 @@ package varlink
 
 //@ func (*Service).handleConnection {C01 C02 C10 C14 C15 | safety: C10}
 //@   requires [nn] s != nil && conn != nil && wg != nil && dispatchersNonNil(s) && !held[s]
-//@   modifies s.conncounter, held, wgDones, closed, gNewConn, wcount, wlastErr, wlastCont, wlastParams, dcount, dlastIface, dlastMethod, dlastResult, gm, gDecErr, gMethod, gOneway
+//@   modifies s.conncounter, held, wgDones, closed, gNewConn, dlRpast, dlRzero, dlRctx, helper, gDlFail, gCancelled, gCtxErr, sockOff, bufLo, bufHi, gRdCalls, gSends, gSentVal, gSentErr, wcount, wlastErr, wlastCont, wlastParams, dcount, dlastIface, dlastMethod, dlastResult, gm, gDecErr, gMethod, gOneway
 //@   ghostset at call(NewConn)#1 : gNewConn = gNewConn + 1
 //@   ensures [onereader C02] gNewConn == old(gNewConn) + 1
 //@   ensures [closed C10 C14] closed[conn]
@@ -248,7 +248,7 @@ package varlink
 //@   assert [strip C01 C02 C10] at call(HandleMessage)#1 : err == nil && len(request) >= 1 && request[len(request) - 1] == 0 && arg3 == request[0:len(request) - 1] && arg2 == boxed(ctxConn) && arg0 == s
 //@   assert [reader C02] at call(ReadBytes)#1 : arg0 == ctxConn && arg2 == 0
 //@   assert [close C10] at call(Close)#1 : arg0 == conn
-//@   loop 1 invariant [reader C02] ctxConn != nil && gNewConn == old(gNewConn) + 1 && !held[s]
+//@   loop 1 invariant [reader C02] cstruct(ctxConn) && ctxConn.conn == conn && gNewConn == old(gNewConn) + 1 && !held[s]
 //@   loop 1 decreases *
 
 // ---- addresses (C19) and socket activation (C20)
@@ -471,3 +471,161 @@ package varlink
 //@   assert [account C14] at go#1 : s.conncounter == gCnt + 1 && wgAdds[addr_wg] == gAdds + 1 && arg0 == s && arg2 == conn && arg3 == addr_wg && gAccErr == nil
 //@   loop 1 invariant [iter] !held[s] && (gAccErr == nil || gAccTimeout) && l == gBound && l != nil && s.listener == gBound && (timeout == 0 ==> gSetDl == old(gSetDl))
 //@   loop 1 decreases *
+
+// ---- client side (C02 C03 C11 C12 C13 C18)
+
+//@ ghost gSendWrites int
+//@ ghost gRdErr iface
+//@ ghost gDecErr2 iface
+//@ ghost gRErr string
+//@ ghost gRCont bool
+//@ ghost gRParams ref
+//@ ghost gDispatched iface
+//@ ghost gSendErr iface
+//@ ghost gRecvRes iface
+//@ ghost gUnm iface
+
+//@ func (InterfaceNotFound).Error {C12}
+//@   ensures [name C12] result == "org.varlink.service.InterfaceNotFound"
+//@ func (MethodNotFound).Error {C12}
+//@   ensures [name C12] result == "org.varlink.service.MethodNotFound"
+//@ func (MethodNotImplemented).Error {C12}
+//@   ensures [name C12] result == "org.varlink.service.MethodNotImplemented"
+//@ func (InvalidParameter).Error {C12}
+//@   ensures [name C12] result == "org.varlink.service.InvalidParameter"
+//@ func (*Error).Error {C12}
+//@   requires [nn] e != nil
+//@   ensures [name C12] result == e.Name
+
+//@ pred isStdErr(n) = n == "org.varlink.service.InterfaceNotFound" || n == "org.varlink.service.MethodNotFound" || n == "org.varlink.service.MethodNotImplemented" || n == "org.varlink.service.InvalidParameter"
+
+//@ func (*Error).DispatchError {C11 C12 | safety: C11}
+//@   requires [dyn] e != nil && typeof(e.Parameters) == typeid(ptr(json.RawMessage))
+//@   modifies gUnm
+//@   ghostset at call(Unmarshal)#1 : gUnm = res0
+//@   ghostset at call(Unmarshal)#2 : gUnm = res0
+//@   ghostset at call(Unmarshal)#3 : gUnm = res0
+//@   ghostset at call(Unmarshal)#4 : gUnm = res0
+//@   ensures [nonnil C11 C12] result != nil
+//@   ensures [other C12] !isStdErr(e.Name) ==> result == boxed(e)
+//@   ensures [inf C12] e.Name == "org.varlink.service.InterfaceNotFound" ==> result == boxed(e) || (typeof(result) == typeid(ptr(InterfaceNotFound)) && fresh(unbox(ptr(InterfaceNotFound), result)))
+//@   ensures [mnf C12] e.Name == "org.varlink.service.MethodNotFound" ==> result == boxed(e) || (typeof(result) == typeid(ptr(MethodNotFound)) && fresh(unbox(ptr(MethodNotFound), result)))
+//@   ensures [mni C12] e.Name == "org.varlink.service.MethodNotImplemented" ==> result == boxed(e) || (typeof(result) == typeid(ptr(MethodNotImplemented)) && fresh(unbox(ptr(MethodNotImplemented), result)))
+//@   ensures [ivp C12] e.Name == "org.varlink.service.InvalidParameter" ==> result == boxed(e) || (typeof(result) == typeid(ptr(InvalidParameter)) && fresh(unbox(ptr(InvalidParameter), result)))
+//@   ensures [typed-ok C12] isStdErr(e.Name) && unbox(ptr(json.RawMessage), e.Parameters) == nil ==> result != boxed(e)
+//@   assert [inf-dec C12] at call(Unmarshal)#1 : arg0 == *errorRawParameters && arg1 == boxed(addr_param) && e.Name == "org.varlink.service.InterfaceNotFound"
+//@   assert [mnf-dec C12] at call(Unmarshal)#2 : arg0 == *errorRawParameters && arg1 == boxed(addr_param) && e.Name == "org.varlink.service.MethodNotFound"
+//@   assert [mni-dec C12] at call(Unmarshal)#3 : arg0 == *errorRawParameters && arg1 == boxed(addr_param) && e.Name == "org.varlink.service.MethodNotImplemented"
+//@   assert [ivp-dec C12] at call(Unmarshal)#4 : arg0 == *errorRawParameters && arg1 == boxed(addr_param) && e.Name == "org.varlink.service.InvalidParameter"
+
+//@ func (*Connection).Send {C02 C03 C11 | safety: C11}
+//@   requires [nn] c != nil && c.conn != nil && c.conn.conn != nil && ctx != nil
+//@   modifies gSendWrites, gm, dlWpast, dlWzero, dlWctx, helper, gDlFail, gCancelled, gCtxErr, gWrCalls, gSends, gSentN, gSentErr
+//@   ghostset at call(Marshal)#1 : gm = res0
+//@   ghostset at call(Write)#1 : gSendWrites = gSendWrites + 1
+//@   ensures [refuse1 C11] (flags & More != 0) && (flags & Oneway != 0) ==> result1 != nil && result0 == nil && gSendWrites == old(gSendWrites)
+//@   ensures [refuse2 C11] (flags & More != 0) && (flags & Upgrade != 0) ==> result1 != nil && result0 == nil && gSendWrites == old(gSendWrites)
+//@   ensures [ok C11] result1 == nil ==> result0 != nil && gSendWrites == old(gSendWrites) + 1
+//@   ensures [once C02 C11] gSendWrites == old(gSendWrites) || gSendWrites == old(gSendWrites) + 1
+//@   ensures [fail C11] result1 != nil ==> result0 == nil
+//@   assert [fields C03 C11] at call(Marshal)#1 : m.Method == method && m.Parameters == parameters && m.More == (flags & More != 0) && m.Oneway == (flags & Oneway != 0) && m.Upgrade == (flags & Upgrade != 0) && arg0 == boxed(m)
+//@   assert [frame C02] at call(Write)#1 : len(arg2) == len(gm) + 1 && arg2[len(arg2) - 1] == 0 && (forall i int :: 0 <= i && i < len(gm) ==> arg2[i] == gm[i]) && arg0 == c.conn
+
+//@ func (*Connection).Send$1 {C02 C03 C11 C12 | safety: C11}
+//@   requires [nn] *c != nil && cstruct((*c).conn) && ctx != nil
+//@   modifies pointee(outParameters), gRdErr, gDecErr2, gRErr, gRCont, gRParams, gDispatched, gUnm, dlRpast, dlRzero, dlRctx, helper, gDlFail, gCancelled, gCtxErr, sockOff, bufLo, bufHi, gRdCalls, gSends, gSentVal, gSentErr
+//@   ghostset at call(ReadBytes)#1 : gRdErr = res1
+//@   ghostset at call(ReadBytes)#1 : gDecErr2 = nil
+//@   ghostset at call(Unmarshal)#1 : gDecErr2 = res0
+//@   ghostset at call(Unmarshal)#1 : gRErr = m.Error
+//@   ghostset at call(Unmarshal)#1 : gRCont = m.Continues
+//@   ghostset at call(Unmarshal)#1 : gRParams = m.Parameters
+//@   ghostset at call(DispatchError)#1 : gDispatched = res0
+//@   ensures [eof C11] gRdErr == io.EOF ==> result1 == io.ErrUnexpectedEOF && result0 == 0
+//@   ensures [rderr C11] gRdErr != nil && gRdErr != io.EOF ==> result1 == gRdErr && result0 == 0
+//@   ensures [decode C11] gRdErr == nil && gDecErr2 != nil ==> result1 == gDecErr2 && result0 == 0
+//@   ensures [remote C11 C12] gRdErr == nil && gDecErr2 == nil && gRErr != "" ==> result0 == 0 && result1 == gDispatched && result1 != nil
+//@   ensures [cont C03 C11] gRdErr == nil && gDecErr2 == nil && gRErr == "" ==> result1 == nil && (gRCont ==> result0 == 4) && (!gRCont ==> result0 == 0)
+//@   assert [reader C02 C18] at call(ReadBytes)#1 : arg0 == (*c).conn && arg2 == 0
+//@   assert [strip C02 C11] at call(Unmarshal)#1 : arg0 == out[0:len(out) - 1] && arg1 == boxed(addr_m)
+//@   assert [errval C11 C12] at call(DispatchError)#1 : arg0.Name == m.Error && arg0.Parameters == boxed(m.Parameters) && m.Error != ""
+//@   assert [params C03] at call(Unmarshal)#2 : arg0 == *m.Parameters && arg1 == outParameters && m.Error == ""
+
+//@ func (*Connection).Call {C03 C11 C13 | safety: C11}
+//@   requires [nn] c != nil && c.conn != nil && c.conn.conn != nil && ctx != nil
+//@   modifies gSendErr, gRecvRes, gSendWrites, gm, dlWpast, dlWzero, dlWctx, helper, gDlFail, gCancelled, gCtxErr, gWrCalls, gSends, gSentN, gSentErr
+//@   ghostset at call(Send)#1 : gSendErr = res1
+//@   ghostset at call(dynamic)#1 : gRecvRes = res1
+//@   ensures [senderr C11] gSendErr != nil ==> result == gSendErr
+//@   ensures [recv C11] gSendErr == nil ==> result == gRecvRes
+//@   assert [args C03 C13] at call(Send)#1 : arg0 == c && arg2 == method && arg3 == boxed(addr_parameters) && arg4 == 0
+//@   assert [out C03 C13] at call(dynamic)#1 : arg1 == outParameters
+
+//@ func (*Connection).GetInterfaceDescription {C13 | safety: C11}
+//@   requires [nn] c != nil && c.conn != nil && c.conn.conn != nil && ctx != nil
+//@   modifies gSendErr, gRecvRes, gSendWrites, gm, dlWpast, dlWzero, dlWctx, helper, gDlFail, gCancelled, gCtxErr, gWrCalls, gSends, gSentN, gSentErr
+//@   assert [call C13] at call(Call)#1 : arg2 == "org.varlink.service.GetInterfaceDescription" && arg4 == boxed(addr_r) && typeof(arg3) != 0
+//@   assert [ret C13] at return#2 : true
+//@   ensures [err C13] result1 != nil ==> result0 == ""
+
+//@ func (*Connection).GetInfo {C13 | safety: C11}
+//@   requires [nn] c != nil && c.conn != nil && c.conn.conn != nil && ctx != nil
+//@   modifies *vendor, *product, *version, *url, *interfaces, gSendErr, gRecvRes, gSendWrites, gm, dlWpast, dlWzero, dlWctx, helper, gDlFail, gCancelled, gCtxErr, gWrCalls, gSends, gSentN, gSentErr
+//@   assert [call C13] at call(Call)#1 : arg2 == "org.varlink.service.GetInfo" && arg4 == boxed(addr_r)
+//@   assert [copy C13] at return#2 : (vendor != nil ==> *vendor == r.Vendor) && (product != nil ==> *product == r.Product) && (version != nil ==> *version == r.Version) && (url != nil ==> *url == r.URL) && (interfaces != nil ==> *interfaces == r.Interfaces)
+
+//@ func (*Connection).Upgrade$1 {C11 C18 | safety: C11}
+//@   requires [nn] *c != nil
+//@   modifies gRecvRes
+//@   ghostset at call(dynamic)#1 : gRecvRes = res1
+//@   ensures [err C11] gRecvRes != nil ==> result2 == gRecvRes && result1 == nil && result0 == 0
+//@   ensures [same C18] gRecvRes == nil ==> result2 == nil && result1 == boxed((*c).conn)
+
+//@ func (*Connection).Upgrade {C11 C18 | safety: C11}
+//@   requires [nn] c != nil && c.conn != nil && c.conn.conn != nil && ctx != nil
+//@   modifies gSendErr, gSendWrites, gm, dlWpast, dlWzero, dlWctx, helper, gDlFail, gCancelled, gCtxErr, gWrCalls, gSends, gSentN, gSentErr
+//@   ghostset at call(Send)#1 : gSendErr = res1
+//@   ensures [err C11] gSendErr != nil ==> result1 == gSendErr && result0 == nil
+//@   ensures [ok C18] gSendErr == nil ==> result1 == nil && result0 != nil
+//@   assert [flags C11 C18] at call(Send)#1 : arg4 == 8 && arg2 == method && arg3 == parameters
+
+//@ func (*Connection).Close {C10}
+//@   requires [nn] c != nil && c.conn != nil && c.conn.conn != nil
+//@   modifies closed
+
+// ---- bridge (C03 C17)
+//@ ghost gFwdCnt int
+//@ ghost gOut iface
+//@ ghost gIn iface
+//@ ghost gN int
+//@ ghost gE iface
+
+//@ func (PipeCon).Read {C03 | safety: C11}
+//@   requires [nn] p.reader != nil
+//@   modifies elems(b), gN, gE
+//@   ghostset at call(Read)#1 : gN = res0
+//@   ghostset at call(Read)#1 : gE = res1
+//@   ensures [verbatim C03] n == gN && err == gE
+//@   assert [fwd C03] at call(Read)#1 : arg0 == p.reader && arg1 == b
+
+//@ func (PipeCon).Write {C03 | safety: C11}
+//@   requires [nn] p.writer != nil
+//@   modifies gN, gE
+//@   ghostset at call(Write)#1 : gN = res0
+//@   ghostset at call(Write)#1 : gE = res1
+//@   ensures [verbatim C03] n == gN && err == gE
+//@   assert [fwd C03] at call(Write)#1 : arg0 == p.writer && arg1 == b
+
+//@ func (PipeCon).SetReadDeadline {C17 | safety: C11}
+//@   modifies gFwdCnt
+//@   ensures [forwards C17] result == nil ==> gFwdCnt == old(gFwdCnt) + 1
+
+//@ func (PipeCon).SetWriteDeadline {C17 | safety: C11}
+//@   modifies gFwdCnt
+//@   ensures [forwards C17] result == nil ==> gFwdCnt == old(gFwdCnt) + 1
+
+//@ func NewBridgeWithStderr {C03 | safety: C11}
+//@   modifies gOut, gIn, anyfield(exec.Cmd.Stderr)
+//@   ghostset at call(StdoutPipe)#1 : gOut = res0
+//@   ghostset at call(StdinPipe)#1 : gIn = res0
+//@   assert [wiring C03] at call(NewConn)#1 : unbox(PipeCon, arg0).reader == gOut && unbox(PipeCon, arg0).writer == gIn && unbox(PipeCon, arg0).cmd == cmd
